@@ -39,7 +39,7 @@ uint8_t STUB_SKIPWS(char* self, uint8_t skip_cr) {
 }
 #endif
 int main(void) {
-  static char parser[SZ_Parser] __attribute__((aligned(16)));
+  static struct parser_model PMODEL; char* parser = (char*)&PMODEL;
   char buf[N ? N : 1];
   for (unsigned i = 0; i < N; i++) buf[i] = (char)nondet_u8();
   unsigned off = nondet_u32(); __CPROVER_assume(off <= N);
